@@ -9,7 +9,8 @@ CHECKS = {
    text='Bounded symbolic verification: the transliterated mlmatrix_cy kernels and the MLStructure/index-map source are executed on '
         'symbolic per-level patterns (block sizes 1..3 and stored positions are solver variables); z3 shows for every pattern within '
         'the bound that the reported nonzeros are the Kronecker pattern in data-layout order, lower_tri/row queries are the exact '
-        'filters, matvec equals the dense definition and the index maps are mutually inverse. Counterexamples are replayed on the real build.',
+        'filters, matvec equals the dense definition and the index maps are mutually inverse; compute_sparsity_ij on symbolic monotone support tables (unequal function counts) lists exactly the '
+        'overlapping pairs in lexicographic order; the MLMatrix object keeps these properties through data assignment and reordering. Counterexamples are replayed on the real build.',
    note='Trusted: z3; cyx transliteration (validated against the compiled kernels); symnp/symsparse stubs; integers do not wrap within the bound; '
         'doubles as reals. Bound: L<=4, blocks<=3x3, nnz/level<=3.',
    technique='symbolic execution of transliterated Cython + z3 (LIA/NIA) with replay'),
@@ -18,8 +19,9 @@ CHECKS = {
    text='Bounded symbolic verification: the transliterated bspline_cy kernels (findspan, active_deriv) and the Python routes '
         '(single_ev, active_ev, collocation(_derivs)(_info), compute_values_derivs) are executed with the evaluation point and, up to p=3/4, '
         'the whole open knot vector as real solver variables; z3 (NRA) proves equality with the Cox-de Boor recursion, locality, '
-        'non-negativity, partition of unity and vanishing derivative sums for every real point including knots and end points.',
-   note='Trusted: z3, cyx transliteration (validated against compiled kernels), oracle recursion in checks/bsp_oracle.py, doubles as reals. '
+        'non-negativity, partition of unity and vanishing derivative sums for every real point including knots and end points. bspline.ev/deriv (the FITPACK route) run from source '
+        'with scipy.interpolate.splev bound to its documented contract and are proved equal to the active_deriv route for every derivative order 0..p, symbolic knots, coefficients and point.',
+   note='Trusted: z3, cyx transliteration (validated against compiled kernels), oracle recursion in checks/bsp_oracle.py, the splev contract (FITPACK itself is FFI; the replay runs it), doubles as reals. '
         'Bound: symbolic knots p<=3 (quick)/4 (thorough); concrete rational knots p<=8 (quick)/12; derivative orders <=p+2.',
    technique='symbolic execution of transliterated Cython + z3 (QF_NRA) vs recursive oracle'),
  'C06': dict(
@@ -45,7 +47,8 @@ CHECKS = {
         'prescribed values and the free solution are symbolic reals, the constrained index sequence is a symbolic injective sequence without ordering '
         'assumption (each order is a forked path); z3 proves that complete() takes the prescribed values, that a solution of the restricted system solves '
         'every non-eliminated equation, and that restrict/extend/restrict_matrix/restrict_rhs are consistent; slice_indices/boundary_dofs/boundary_cells/'
-        'combine_bcs are checked for all shapes <= 3x3x3, indices, flips and bdspecs.',
+        'combine_bcs are checked for all shapes <= 3x3x3, indices, flips and bdspecs; dense and sparse matrices with elim_rows; compute_initial_condition_01 runs with a symbolic '
+        'time knot vector (symbolic interval, coincident knots allowed) and linalg.solve as a contract whose solvability is an obligation.',
    note='Trusted: z3, symsparse stub, reals for doubles. Index inputs are decided by exhaustive forking within the bound (n<=4/5), matrix/vector data by the solver.',
    technique='symbolic execution of real Python source + z3 (LRA/NRA), index order by solver-driven forking'),
  'C14': dict(
@@ -54,7 +57,8 @@ CHECKS = {
         'variables, symbolic number of classes); assuming the representation invariant, z3 proves that one join with arbitrary patches/dofs re-establishes '
         'the invariant and realises exactly the equivalence closure, and that finalize numbers the classes gap-free with numdofs = number of classes. '
         'One step from every invariant state covers join histories of any length/order/repetition over the index domain. Counterexamples are turned into '
-        'concrete join histories and replayed on the real Multipatch (numbering, 0/1 patch-to-global matrices).',
+        'concrete join histories and replayed on the real Multipatch (numbering, 0/1 patch-to-global matrices). Interface detection (_check_geo_match, _find_matching_boundaries, detect_interfaces) '
+        'runs on symbolic face maps over small rational grids: every pair of coinciding faces (also two per patch pair) is reported once with the right flip flags, nothing else is.',
    note='Trusted: z3, SymDict/SymSetList container models, the stated invariant (every class spans >= 2 patches or is empty; dict and sets agree). '
         'Bound: 3-4 patches x 2-3 local dofs, <= 2-3 pre-existing classes; single-pair joins.',
    technique='inductive invariant step over symbolic container state (z3 LIA), concrete-history replay'),
@@ -64,7 +68,8 @@ CHECKS = {
         'F(y)=Ky+g with symbolic M, K, g, x, tau (1x1, 2x2); newton inside the step is replaced by its contract evaluated on the real closure, make_solver by '
         '"B y = r"; z3 proves the stage equations, the weight formulas (main/embedded), the returned F(x_new) and exact integration of y\'=const for every '
         'shipped tableau; order conditions up to the documented order are discharged as ground queries on the exact rationals of the constants (tolerance 1e-8); '
-        'constant/adaptive drivers and newton are verified against unconstrained stepper/residual stubs (<= 4 steps / attempts, maxiter <= 3).',
+        'constant/adaptive drivers (incl. the constant-step fallback, the Fx cache and data-dict contracts, time arguments with t0 != 0) and newton are verified against unconstrained '
+        'stepper/residual stubs (<= 4 steps / attempts, maxiter <= 3); driver counterexamples are replayed on the real drivers with scripted error estimates.',
    note='Trusted: z3, stubs (solver contract, newton contract, norm = fresh non-negative), reals for doubles, Rosenbrock order reading (main = err_order+1). '
         'Known finding: coeffs_dirk34 is inconsistent (known_findings.json).',
    technique='compositional symbolic execution with contract stubs + z3 (NRA); ground order-condition queries'),
@@ -95,8 +100,8 @@ CHECKS = {
    text='Bounded symbolic verification: the operator classes of operators.py (on top of the real scipy LinearOperator), kronecker.py and the tensor-product '
         'application routines of tensor.py are exec\'d from source and applied to symbolic operands (dense object arrays, sparse model, abstract operators) and '
         'symbolic vector / (n,1) / multi-column arguments; z3 proves entrywise equality with the explicit dense definition (np.kron, block assembly, sum P B P^T, '
-        'mode-wise products) for the operator, its transpose and its adjoint, for 1-3 factors with independent shapes <= 3, rectangular block layouts with null '
-        'blocks, None placeholders and trailing axes.',
+        'mode-wise products) for the operator, its transpose and its adjoint, for 1-3 factors with independent shapes <= 3 (incl. rectangular factors whose product is square), '
+        'rectangular block layouts with null blocks, None placeholders and trailing axes; CSRRowSubset products for symbolic CSR data and every row subset (any order) within the bound.',
    note='Trusted: z3, symsparse stub, scipy LinearOperator dispatch, reals for doubles. Not applicable part: solver factories (LAPACK/SuperLU/eigh behind FFI).',
    technique='symbolic execution of real Python source on object arrays + z3 (polynomial identities)'),
  'C18': dict(
@@ -131,14 +136,16 @@ CHECKS = {
         'rule given by its exact algebraic values (defining equations of the radicals, q <= 5) z3 proves that each entry with the default node count equals the exact rational '
         'integral of the piecewise polynomial, that mass entries sum to the interval length and that constants are in the kernel of the stiffness matrix; Kronecker paths equal '
         'the Kronecker sums in the documented axis order; load vectors/integrals equal the weighted sums with |det J| for all function values, Jacobians and collocation entries; '
+        'a call history on one knot vector (weighted, weighted again, unweighted, other weight, unweighted) yields each time the matrix of its own definition (no state leaks between calls); '
         'X Y = I and det = Leibniz for all nonsingular 2x2/3x3 matrices; boundary normals are orthogonal to the face and point outward whenever det J > 0.',
    note='Trusted: z3, exact rational reference integrals (own code), the algebraic form of the Gauss-Legendre rule (numpy delivers its rounding), symnp/symsparse, reals for doubles. '
-        'Knot vectors are concrete (dyadic) and enumerated; data are symbolic. Not applicable part: the low-rank fast assembler (C++).',
+        'Knot vectors are concrete (dyadic) and enumerated; data are symbolic. Code objects are rebuilt for every explored path (module-level state lives for one harness). Not applicable part: the low-rank fast assembler (C++).',
    technique='symbolic execution of real Python/Cython source + z3 (polynomial identities; algebraic Gauss nodes via defining equations)'),
  'C03': dict(
    category='other', design_ref='4/C03',
    text='Hybrid bounded check: HDiscretization.assemble_matrix/assemble_functional (source exec\'d from /repo) run on the real HSpace/HMesh/MLStructure code for an enumerated '
-        'family of refinement histories (HB and THB, disparity 1/2/inf, bdspecs None/[]/faces, incl. assemble-refine-assemble sequences on one object) while the tensor-product '
+        'family of refinement histories (HB and THB, disparity 1/2/inf, bdspecs None/[]/faces, incl. assemble-refine-assemble sequences on one object and histories whose '
+        'intermediate level has active cells but no active function) while the tensor-product '
         'level matrices and vectors are symbolic (the level assembler is replaced by its contract: symbolic entries at the structural nonzeros of exactly the requested rows). '
         'Per space z3 decides, for all level matrices at once, that entry (i,j) is the bilinear form of the two hierarchical functions on the finer of their levels '
         '(independent level matrices), that with Galerkin-nested levels the result is I^T A_fine I for the space\'s own representation matrix, that symmetric assembly of a symmetric '
@@ -164,10 +171,14 @@ CHECKS = {
         'knots) and the evaluation point are solver variables; z3 proves on every polynomial piece of the refined vector that each old basis function equals the combination of the new '
         'ones given by the columns of the returned matrix, and that rows sum to one (degree <= 3 quick / 5 thorough). (B) Hybrid: the real HSpace.prolongate_to (every prefix of a history '
         'to the full history, acting on HB coefficients), HSpace.boundary (all faces, different knot vectors per direction), thb_to_hb/hb_to_thb run on enumerated refinement histories; '
-        'for a symbolic coefficient vector z3 decides that the function, expressed in the finest-level tensor-product basis, is preserved.',
-   note='Trusted: z3, Cox-de Boor piece oracle (own code), ratnorm division clearing, represent_fine/HMesh.P/bspline.prolongation of the real code as the reference representation in (B) '
-        '(entries replaced by the dyadic rational within 1e-12). In (B) the history quantifier is by ENUMERATION, the solver only quantifies over the coefficient vector (linear identities). '
-        'Not applicable: bspline.prolongation itself (numeric collocation solve), virtual_hierarchy_prolongators, HSplineFunc evaluation routes.',
+        'for a symbolic coefficient vector z3 decides that the function, expressed in the finest-level tensor-product basis, is preserved. Also per space: HMesh.P of every level and '
+        'direction = exact knot insertion; represent_fine on EVERY virtual level for HB and THB = the textbook basis of that level; virtual_hierarchy_prolongators for both bases: the '
+        'composition of all preserves the function and, composed from any level, the columns span exactly that level\'s space (existential LRA query per column + independence query). '
+        'Known finding: THB virtual_hierarchy_prolongators on spaces with >= 3 levels (known_findings.json).',
+   note='Trusted: z3, Cox-de Boor piece oracle (own code), ratnorm division clearing; reference in (B): exact knot insertion in Fractions (own Boehm code, self-tested against Cox-de Boor on every use) '
+        'and the textbook (T)HB definition -- not the library\'s HMesh.P. Real float matrices enter with entries replaced by the dyadic rational within 1e-12; tolerance 1e-9. '
+        'In (B) the history quantifier is by ENUMERATION (incl. graded knots per direction, sharply nested regions, empty intermediate levels), the solver only quantifies over coefficient vectors. '
+        'Not applicable: bspline.prolongation for arbitrary knot vectors (numeric collocation solve; only its results inside HMesh.P are compared), HSplineFunc evaluation routes (replay only).',
    technique='symbolic execution of real Python source + z3 (rational-function identities per polynomial piece; LRA for the hybrid part)'),
  'C01': dict(
    category='translation_validation', design_ref='4/C01',
